@@ -214,7 +214,10 @@ def run06(ck):
         if "IndividualAddress" in a:
             return [IndividualAddress(0), IndividualAddress(65535)]
         if "GroupAddress" in a and "list" in a:
-            return [[], [GroupAddress(1)], [GroupAddress(i + 1) for i in range(7)], [GroupAddress(65535)]]
+            return [[], [GroupAddress(1)], [GroupAddress(i + 1) for i in range(7)], [GroupAddress(65535)],
+                    # the same address more than once (legal on the wire), also as equal but distinct objects
+                    [GroupAddress(5), GroupAddress(5)], [GroupAddress(1), GroupAddress(2), GroupAddress(1)], [GroupAddress(9)] * 6, [GroupAddress(3)] * 7,
+                    [GroupAddress(i % 3 + 1) for i in range(6)], [GroupAddress(i + 1) for i in range(6)]]
         if "GroupAddress" in a:
             return [GroupAddress(0), GroupAddress(65535)]
         if "bytes" in a:
